@@ -118,6 +118,7 @@ func (encryptor *HashQuery) OnQuery(ctx context.Context, query mysql.OnQueryObje
 		// to escape from this ambiguity added explicit casting search hash to bytes;
 		// the result expression will look like `convert(substr(searchable_column, ...), binary) = 0xFFFFF`
 		// but previously we had `substr(searchable_column, ...) = X'some_value'`
+		calculateHmac := encryptor.calculateHmac
 		if rVal, ok := item.Expr.Right.(*sqlparser.SQLVal); ok && rVal.Type != sqlparser.ValArg {
 			item.Expr.Left = &sqlparser.ConvertExpr{
 				Expr: item.Expr.Left,
@@ -126,12 +127,18 @@ func (encryptor *HashQuery) OnQuery(ctx context.Context, query mysql.OnQueryObje
 				},
 			}
 
-			rVal.Type = sqlparser.HexNum
+			// the searched value is decoded in the spelling the client used ('..', X'..', 0x..); only the hash
+			// that replaces it is written as a 0x number
+			calculateHmac = func(ctx context.Context, data []byte) ([]byte, error) {
+				hash, err := encryptor.calculateHmac(ctx, data)
+				rVal.Type = sqlparser.HexNum
+				return hash, err
+			}
 		}
 
 		// substring(column, 1, <HMAC_size>) = 'value' ===> substring(column, 1, <HMAC_size>) = <HMAC('value')>
 		// substring(column, 1, <HMAC_size>) = $1      ===> no changes
-		err := mysql.UpdateExpressionValue(ctx, item.Expr.Right, encryptor.coder, item.Setting, encryptor.calculateHmac)
+		err := mysql.UpdateExpressionValue(ctx, item.Expr.Right, encryptor.coder, item.Setting, calculateHmac)
 		if err != nil {
 			logrus.WithError(err).Debugln("Failed to update expression")
 			return query, false, err
